@@ -82,10 +82,9 @@ def check(ctx, flags, vec, answers):
         want_vec = a["vector"] if a["outcome"] == "result" else None
         # the vector the answers spell out, by the statement (independent simulation of C16), in the order asked
         from . import c16
-        inv = c16.names_to_abbr(iver)
-        order = [inv.get(n, n) for n, _ in a["asked"]]
         V = core.VOCAB[iver[0]]
         expected_set = V["order"] if "a" in flags else V["mandatory"]
+        order = list(dict.fromkeys(m for m in c16.order_asked(iver, "a" in flags, a) if m in expected_set))
         sim = c16.simulate(iver, "a" in flags, answers, order + [m for m in expected_set if m not in order])
         if single and a["outcome"] == "result" and sim[0] == "result" and sim[1] != a["vector"]:
             ctx.violation("%s:interactive-vector-differs-from-answers" % sig_v, "the vector built interactively is not the one the answers spell out",
